@@ -12,7 +12,11 @@ NA_PATH = os.path.join(vlib.VERIF, "props", "not_applicable.json")
 
 def main():
     checks = []
+    nr_path = os.path.join(vlib.VERIF, "props", "not_ready.json")
+    not_ready = json.load(open(nr_path)) if os.path.exists(nr_path) else []
     for p in vlib.all_props():
+        if p in not_ready:
+            continue
         c = vlib.load_prop(p)
         checks.append({
             "property_id": p,
